@@ -858,10 +858,11 @@ PROP = Property(
     ],
     families=[Tables(), Dispatch(), Patch(), VDict(), RoundTrip(), RoundTripOther()],
     pre_build=pre_build,
+    partial_note="no_capture_partial: no rename-table key names a live, written, concrete class EXCEPT the four names of known finding F12 (knownCaptured); the full statement is false on the pinned tree (witness no_capture_witness_F12). All other theorems are full.",
     trusted_base=[
         "harness/translate/c12.py reads the registries, PATH_PATCHES and the class table off the imported package and interns names (interning and the inside-'glue.' flags are re-checked by the compiled driver on every run, the live tables of the harness process are compared with the generated ones)",
         "json, base64, np.save/np.load are trusted codecs",
     ],
     assumptions=["old-format records are produced by this tree's own version-v savers (dispatch.get_version(type, v)), as the property prescribes"],
-    rule="VersionedDict: every op sequence of length <= 3 (quick) / 4 (thorough) over 2 keys x versions {0,1,2,3,bad} + queries, each followed by a full probe of the state, plus seeded random histories of length 4-16 over 3 keys; tables/dispatch/patch: every row of the live registries and every name of the rename table; non-trivial = at least one set / a multi-version type / a table key",
+    rule="VersionedDict: every op sequence of length <= 3 (quick) / 4 (thorough) over 2 keys x versions {(-1),0,1,2,3,bad} + queries, each followed by a full probe of the state, plus seeded random histories of length 4-16 over 3 keys; tables/dispatch/patch: every row of the live registries and every name of the rename table; rt: generated collections (1-3 datasets, derived components, selections, styles, meta, one link or key join) x (Data version, DataCollection version) pairs, saved with those versions' savers and loaded back; rt1: 18 other registered types x registered versions; non-trivial = at least one set / a multi-version type / a table key / an old (non-newest) version pair",
 )
